@@ -1,1 +1,29 @@
-From PM Require Import Model.Step.
+(* C04 — every recorded change can be replayed exactly; the recorded arrays stay aligned.
+   (Exact undo of single steps and of whole histories is evaluated per case by Corr.C04.holds on the
+   implementation's observations; it is not yet a theorem — see DESIGN.md.) *)
+From Coq Require Import List.
+From PM Require Import Model.Data Model.Tree Model.StepMap Model.Step Model.Transform Proofs.TransformProofs.
+Import ListNotations.
+
+(* any sequence of attempted steps (every high-level operation is such a sequence, possibly cut short by
+   a refusal or an exception) leaves docs[i] --steps[i]--> docs[i+1] and maps[i] = steps[i].get_map() *)
+Theorem C04_history_invariant : forall s d sts,
+  Inv s (fold_left (fun t st => fst (maybe_step s t st)) sts (tr_init d)).
+Proof. exact history_Inv. Qed.
+Print Assumptions C04_history_invariant.
+
+Theorem C04_history_replays : forall s d sts,
+  let t := fold_left (fun t st => fst (maybe_step s t st)) sts (tr_init d) in
+  replay s (tr_before t) (t_steps t) = ROk (t_doc t) /\
+  length (t_docs t) = length (t_steps t) /\ length (t_maps t) = length (t_steps t) /\
+  t_maps t = List.map (get_map s) (t_steps t).
+Proof. exact history_replay. Qed.
+Print Assumptions C04_history_replays.
+
+Theorem C04_rejected_step_changes_nothing : forall s t st,
+  (forall d, apply s st (t_doc t) <> ROk d) -> fst (maybe_step s t st) = t.
+Proof.
+  intros s t st H. unfold maybe_step. destruct (apply s st (t_doc t)) eqn:E; auto.
+  exfalso. eapply H; eauto.
+Qed.
+Print Assumptions C04_rejected_step_changes_nothing.
